@@ -93,10 +93,12 @@ class Runner():
             if tasks_dict[task_id].has_subtask:
                 # if a group task, pass values from all sub-tasks
                 arg_value = {}
-                base_len = len(task_id) + 1  # length of base name string
+                prefix = task_id + ':'
                 for sub_id in tasks_dict[task_id].task_dep:
-                    name = sub_id[base_len:]
-                    arg_value[name] = get_value(sub_id, key_name)
+                    # a group task might have other task_dep than its sub-tasks
+                    if sub_id.startswith(prefix):
+                        name = sub_id[len(prefix):]
+                        arg_value[name] = get_value(sub_id, key_name)
             else:
                 arg_value = get_value(task_id, key_name)
             task.options[arg] = arg_value
